@@ -90,13 +90,15 @@ func c07(r *core.Run) {
 	r.Explanation = "Decided clause: purity observation points — every checker visitor of an impure construct still reports it to the purity mechanism: pinned census of the call edges into ObserveImpureOperation, enforceViewAssignment, EnforcePurity and InNewPurityScope " +
 		"(assignment, swap, destroy, remove, invocation of non-view functions, conditions and view function bodies); " +
 		"(R2) the observation dominates the operation it guards: EnforcePurity before checkInvocation, enforceViewAssignment before recordResourceInvalidation; " +
-		"(R3) run-time side: only the reviewed mutating entry points look a domain storage map up with createIfNotExists != false (a lookup that creates maps writes registers, also from a view function)."
+		"(R3) run-time side: only the reviewed mutating entry points look a domain storage map up with createIfNotExists != false (a lookup that creates maps writes registers, also from a view function); " +
+		"(R4) a built-in function type marked view types its function parameters as view."
 	r.NotDecided = "the alias/reference reasoning inside enforceViewAssignment; purity of built-in functions' native implementations beyond R3; observable effects through references at run time."
 	pinnedCallCensus(r, "R1.census", "c07_purity_edges", "sema", []string{"ObserveImpureOperation", "enforceViewAssignment", "EnforcePurity", "InNewPurityScope", "CurrentPurityScope", "PushNewPurityScope", "PopPurityScope"},
 		"an impure operation in a view context would no longer be reported")
 	r.Floor("R1.census", 10)
 	c07Order(r)
 	c07StorageMapCreators(r)
+	c07ViewFunctionParams(r)
 }
 
 // c03Structure: R7–R9.
